@@ -5,6 +5,7 @@ package bridge
 
 import (
 	"bytes"
+	"encoding/json"
 	"fmt"
 	"math/big"
 	"sort"
@@ -14,6 +15,7 @@ import (
 	sdk "github.com/cosmos/cosmos-sdk/types"
 	"github.com/ethereum/go-ethereum/common"
 
+	"github.com/teleport-network/teleport/app"
 	"github.com/teleport-network/teleport/syscontracts"
 	erc20contracts "github.com/teleport-network/teleport/syscontracts/erc20"
 	stakingcontract "github.com/teleport-network/teleport/syscontracts/staking"
@@ -97,8 +99,18 @@ type World struct {
 	Height0  int64
 }
 
+// WorldOpts are optional settings of NewWorldOpts.
+type WorldOpts struct {
+	GenesisMutator func(a *app.Teleport, g map[string]json.RawMessage)
+	OnChain        func(c *kit.Chain) // called right after each chain is created (e.g. to attach a tracer)
+	ExtraCoins     sdk.Coins          // extra genesis balance of every account
+}
+
 // NewWorld builds n chains (2 or 3) with clients, relayers, tokens and approvals.
-func NewWorld(n int, seed []byte) *World {
+func NewWorld(n int, seed []byte) *World { return NewWorldOpts(n, seed, WorldOpts{}) }
+
+// NewWorldOpts is NewWorld with options.
+func NewWorldOpts(n int, seed []byte, o WorldOpts) *World {
 	w := &World{}
 	mk := func(tag string) kit.Account { return kit.NewAccount(append([]byte(tag), seed...)) }
 	w.Users = []kit.Account{mk("user0"), mk("user1")}
@@ -107,7 +119,10 @@ func NewWorld(n int, seed []byte) *World {
 	w.Outsider = mk("outsider")
 	w.Accounts = []kit.Account{w.Users[0], w.Users[1], w.Rels[0], w.Rels[1], w.TSS, w.Outsider}
 	for i := 0; i < n; i++ {
-		c := kit.NewChain(fmt.Sprintf("teleport_%d-1", 9000+i), kit.ChainOpts{Seed: append([]byte{byte('A' + i)}, seed...), Accounts: w.Accounts})
+		c := kit.NewChain(fmt.Sprintf("teleport_%d-1", 9000+i), kit.ChainOpts{Seed: append([]byte{byte('A' + i)}, seed...), Accounts: w.Accounts, GenesisMutator: o.GenesisMutator, ExtraCoins: o.ExtraCoins})
+		if o.OnChain != nil {
+			o.OnChain(c)
+		}
 		w.Chains = append(w.Chains, c)
 		w.Accepted = append(w.Accepted, map[Triple]bool{})
 		w.NextSeq = append(w.NextSeq, map[string]uint64{})
